@@ -165,16 +165,18 @@ func TestChild(t *testing.T) {
 			continue
 		}
 		wr.InFlight(caseID)
-		oneRun(wr, caseID, rand.New(rand.NewSource(sp.Seed*1000003+int64(b)*131+int64(k))), sp.Tier == "thorough")
+		if stop := oneRun(wr, caseID, rand.New(rand.NewSource(sp.Seed*1000003+int64(b)*131+int64(k))), sp.Tier == "thorough"); stop {
+			return // a watchdog fired: the stuck goroutines would only make later runs slower
+		}
 	}
 }
 
-func oneRun(wr *child.Writer, caseID string, r *rand.Rand, thorough bool) {
+func oneRun(wr *child.Writer, caseID string, r *rand.Rand, thorough bool) (stop bool) {
 	nis := []string{server.DefaultNetworkInstanceName, "VRF1", "VRF2"}
 	srv, err := drv.NewServer(nis[1:])
 	if err != nil {
 		wr.Record(map[string]any{"kind": "inconclusive", "case": caseID, "text": err.Error()})
-		return
+		return false
 	}
 	gs := drv.Serve(srv)
 	defer gs.Stop()
@@ -230,7 +232,9 @@ func oneRun(wr *child.Writer, caseID string, r *rand.Rand, thorough bool) {
 	var writersActive atomic.Int32
 	var nOps, nAcked, nFailed, nGets, nFlushes, nReconnects, nAnn, nNegRetries, nHeld atomic.Int64
 
+	var watchdogFired atomic.Bool
 	watchdog := func(what string) {
+		watchdogFired.Store(true)
 		// stop the other workers, then see whether the server is permanently blocked
 		sink.stop.Store(true)
 		time.Sleep(2 * time.Second)
@@ -787,6 +791,7 @@ func oneRun(wr *child.Writer, caseID string, r *rand.Rand, thorough bool) {
 		"operations": nOps.Load(), "operations_acknowledged": nAcked.Load(), "operations_failed_in_band": nFailed.Load(), "gets": nGets.Load(), "flushes": nFlushes.Load(),
 		"reconnects": nReconnects.Load(), "negotiation_retries": nNegRetries.Load(), "operations_held": nHeld.Load(), "announcements": nAnn.Load(), "history_events": len(rec.ops), "flush_overlapped_runs": b2i(flushOverlapped.Load()),
 		"signature": fmt.Sprint(primOrder), "yield_points": y.Hits(), "history_head": head})
+	return watchdogFired.Load()
 }
 
 func b2i(b bool) int {
